@@ -546,7 +546,7 @@ func minus(a, b []string) []string {
 
 func Run(r *report.Run) {
 	ctx := context.Background()
-	r.Rule = "(a) exclude: a SQLite database with colliding names (4 tables, a view, columns/indexes/foreign keys/checks) on a real engine x every pattern table[.child][selector] from 10 table globs x 9 child globs (one of them malformed: it must be reported as an error) x 9 type selectors (quick: every single pattern; thorough: every unordered pair), through InspectSchema and InspectRealm, compared element by element with a reference of the pattern semantics built on path.Match; (b) skip: per dialect a change set containing every skippable kind at every nesting level x all 2^15 subsets of the policy kinds {Add,Drop,Modify} x {Schema,Table,Column,Index,ForeignKey}: the change tree must equal the unskipped diff with the skipped kinds filtered out recursively, also when the policy is handed over as several options; and all 32 subsets of the kinds a table's checks and attributes change by {AddCheck, DropCheck, ModifyCheck, AddAttr, ModifyAttr} (no names in the project file; handed over with DiffSkipChanges); (c) end to end: real `atlas schema apply --auto-approve` on a SQLite file whose current and desired states disagree on 3 tables and 3 columns (one per way a plan can touch a resource) x every set of <=2 of 9 exclude patterns x {--exclude flags, env exclude, env:// URLs, the hcl_schema data source of the project file} x {no dev database, dev database} x desired state {HCL file, database URL}, and all 15 non-empty subsets of diff.skip {add_table, drop_table, add_column, drop_column} in a project file (in the env's diff block, or in the project-level diff block inherited by an env without / with a diff block of its own): a resource is left exactly as it was iff a pattern matches it / its change kind is skipped, everything else reaches the desired state, rows survive, and a second apply is a no-op; the same with an index and a foreign key over the excluded column present on both sides (nothing may be planned for them); (d) the policy handed to the versioned-migration planner (migrate.NewPlanner with PlanWithDiffOptions, as `migrate diff` builds it) on a real in-memory SQLite dev database that replays a directory: scope {whole database, connected schema} x all 32 subsets of {drop table, drop column, drop index, add table, add index}: a kind is in the plan iff it is not switched off; (e) patterns over the columns of a view, on a hand-built realm (the community SQLite inspection reports no views): 9 child globs, one malformed, through ExcludeRealm / ExcludeSchema; non-trivial = pattern set excluding >=1 element, or a non-empty skip subset; distinct by construction"
+	r.Rule = "(a) exclude: a SQLite database with colliding names (4 tables, a view, columns/indexes/foreign keys/checks) on a real engine x every pattern table[.child][selector] from 10 table globs x 9 child globs (one of them malformed: it must be reported as an error) x 9 type selectors (quick: every single pattern; thorough: every unordered pair), through InspectSchema and InspectRealm, compared element by element with a reference of the pattern semantics built on path.Match; (b) skip: per dialect a change set containing every skippable kind at every nesting level x all 2^15 subsets of the policy kinds {Add,Drop,Modify} x {Schema,Table,Column,Index,ForeignKey}: the change tree must equal the unskipped diff with the skipped kinds filtered out recursively, also when the policy is handed over as several options; and all 32 subsets of the kinds a table's checks and attributes change by {AddCheck, DropCheck, ModifyCheck, AddAttr, ModifyAttr} (no names in the project file; handed over with DiffSkipChanges); (c) end to end: real `atlas schema apply --auto-approve` on a SQLite file whose current and desired states disagree on 3 tables and 3 columns (one per way a plan can touch a resource) x every set of <=2 of 9 exclude patterns x {--exclude flags, env exclude, env:// URLs, the hcl_schema data source of the project file} x {no dev database, dev database} x desired state {HCL file, database URL}, and all 15 non-empty subsets of diff.skip {add_table, drop_table, add_column, drop_column} in a project file (in the env's diff block, or in the project-level diff block inherited by an env without / with a diff block of its own): a resource is left exactly as it was iff a pattern matches it / its change kind is skipped, everything else reaches the desired state, rows survive, and a second apply is a no-op; the same with an index and a foreign key over the excluded column present on both sides (nothing may be planned for them); (d) the policy handed to the versioned-migration planner (migrate.NewPlanner with PlanWithDiffOptions, as `migrate diff` builds it) on a real in-memory SQLite dev database that replays a directory: scope {whole database, connected schema} x all 32 subsets of {drop table, drop column, drop index, add table, add index}: a kind is in the plan iff it is not switched off; (e) patterns over the columns of a view, on a hand-built realm (the community SQLite inspection reports no views): 9 child globs, one malformed, through ExcludeRealm / ExcludeSchema; (f) realm-level patterns on a hand-built realm of four schemas (three matched by the same globs) in all 24 orders x every ordered set of <=2 of 11 schema / schema.table patterns with type selectors through ExcludeRealm, against a path.Match reference (what is left, and in the inspected order); non-trivial = pattern set excluding >=1 element, or a non-empty skip subset; distinct by construction"
 	r.Assumptions = []string{
 		"indexes/foreign keys built on an excluded column, and foreign keys pointing at an excluded table, are unspecified by the documentation: not judged",
 		"the CLI slice uses one fixed pair of schemas in which every way a plan can touch a resource occurs once",
@@ -610,6 +610,14 @@ func Run(r *report.Run) {
 			r.Violate("", fmt.Sprintf("view %+v: %s", c, strings.Join(p, " | ")), map[string]any{"view": c})
 		}
 	}
+	// (f) realm-level patterns over several schemas in every order
+	for _, c := range realmCases() {
+		r.CaseDistinct(true)
+		if p := evalRealm(c); len(p) > 0 {
+			r.Violate("", fmt.Sprintf("realm %+v: %s", c, strings.Join(p, " | ")), map[string]any{"realm": c})
+		}
+	}
+	r.Set("realm_pattern_cases", len(realmCases()))
 	// (d) the policy handed to the versioned-migration planner
 	for _, c := range plannerCases() {
 		r.CaseDistinct(c.Mask != 0)
@@ -631,6 +639,7 @@ func Replay(r *report.Run, raw json.RawMessage) {
 			Planner  *PlannerCase `json:"planner"`
 			SkipAttr *SkipCase    `json:"skip_attr"`
 			View     *ViewCase    `json:"view"`
+			Realm    *RealmCase   `json:"realm"`
 		}
 	}
 	if err := json.Unmarshal(raw, &v); err != nil {
@@ -653,6 +662,10 @@ func Replay(r *report.Run, raw json.RawMessage) {
 		}
 	case v.Case.Skip != nil:
 		if p := evalSkip(*v.Case.Skip); len(p) > 0 {
+			r.Violate("", strings.Join(p, " | "), v.Case)
+		}
+	case v.Case.Realm != nil:
+		if p := evalRealm(*v.Case.Realm); len(p) > 0 {
 			r.Violate("", strings.Join(p, " | "), v.Case)
 		}
 	case v.Case.View != nil:
